@@ -1,0 +1,7 @@
+//go:build !verif
+
+package tsdb
+
+// verifPoint marks a durable step of the shard. It does nothing unless the package is
+// built with the "verif" tag (see verif_point_on.go).
+func verifPoint(name string, args ...interface{}) {}
